@@ -379,9 +379,10 @@ impl<'template, 'env> State<'template, 'env> {
         W: std::io::Write,
     {
         let mut wrapper = crate::output::WriteWrapper { w, err: None };
-        crate::vm::call_block(block, self, &mut Output::new(&mut wrapper))
-            .map(|_| ())
-            .map_err(|err| wrapper.take_err(err))
+        match crate::vm::call_block(block, self, &mut Output::new(&mut wrapper)) {
+            Ok(_) => wrapper.check(()),
+            Err(err) => Err(wrapper.take_err(err)),
+        }
     }
 
     /// Returns a list of the names of all exports (top-level variables).
